@@ -257,8 +257,8 @@ func checkEnc(scen string, in EncIn) []*mc.Violation {
 }
 
 func lineValues(maxLines int) []string {
-	lines := []string{"a", "", " ind", "b c", "\ttab", "#c", "k: v", "5% %s", "J\xf6rg", " ."}
-	sym := []string{"0", "1", "2", "3", "4", "5", "6", "7", "8", "9"}
+	lines := []string{"a", "", " ind", "b c", "\ttab", "#c", "k: v", "5% %s", "J\xf6rg", " .", "gioco di abilit\u00e0"}
+	sym := []string{"0", "1", "2", "3", "4", "5", "6", "7", "8", "9", ":"}
 	for i, t := range gen.AuditStrings(gen.OneLine, 2) { // alphabet audit: lines made of literals a change introduced
 		if strings.TrimSpace(t) != "" && strings.TrimRight(t, " \t") == t && t != "." {
 			lines = append(lines, t)
@@ -274,9 +274,9 @@ func lineValues(maxLines int) []string {
 		var ls []string
 		for _, c := range s {
 			if c >= 'a' {
-				ls = append(ls, lines[10+int(c-'a')])
+				ls = append(ls, lines[11+int(c-'a')])
 			} else {
-				ls = append(ls, lines[c-'0'])
+				ls = append(ls, lines[c-'0']) // '0'..'9' and ':' (the character after '9') index the fixed lines
 			}
 		}
 		v := strings.Join(ls, "\n")
